@@ -4,17 +4,25 @@ Require Export Verif.Common.Base.
 Require Export Verif.Model.C19 Verif.Spec.C19.
 
 Inductive router := Plain | Gin | Mux.
+(* how the server is reached: cleartext HTTP/1.1, TLS (HTTP/1.1), TLS with HTTP/2, cleartext with
+   use_h2c on (HTTP/1.1 clients through the h2c handler) *)
+Inductive transport := THttp | TTls | TTlsH2 | TH2c.
+(* why the listener cannot start, if it cannot: the port is held by the harness, or the socket
+   cannot be created (descriptor table full: a "temporary" error) *)
+Inductive listen_error := LNone | LAddrInUse | LTemporary.
 
-(* which entry point ran, whether the harness held the port, the imposed script, the
+(* which entry point ran, over which transport, whether (and why) the listener could not start,
+   the imposed script, the
    observed trace (events ordered by the harness's single atomic clock) *)
 Inductive case :=
-| CRun (rt : router) (port_held : bool) (script : list sstep) (trace : list event).
+| CRun (rt : router) (tr : transport) (le : listen_error) (script : list sstep) (trace : list event).
 
 (* corr_ok: the harness imposed what the case says and the observed trace is a complete trace
    of the model (trace inclusion); prop_ok: the verified monitor accepts the observed trace *)
 Definition check_case (c : case) : bool * bool :=
   match c with
-  | CRun _ ph sc t => (imposed_b ph sc t && accepts_b t, graceful_b t)
+  | CRun _ _ le sc t =>
+      (imposed_b (match le with LNone => false | _ => true end) sc t && accepts_b t, graceful_b t)
   end.
 
 Fixpoint failing (i : nat) (cs : list case) : list verdict :=
